@@ -66,6 +66,26 @@ def pairs(nl, nr):
     return out
 
 
+ORDERS = {"prompt": None, "lazy-remote-intake": ["IL", "S", "UL", "UR", "IR"], "lazy-local-intake": ["IR", "S", "UL", "UR", "IL"],
+          "sync-last": ["IL", "IR", "UL", "UR", "S"]}
+
+
+def chains():
+    """longer one-side chains around a folder rename (edit child / rename folder / follow-up on the child at its new
+    path, move it back to the old path) against one unrelated operation on the other side"""
+    out = []
+    for folder, new, child in (("d", "dx", "b"), ("e/f", "n", "g")):
+        old_child = folder + "/" + child
+        new_child = new + "/" + child
+        firsts = [[["write", old_child]], [], [["create", folder + "/k"]]]
+        follow = [[["delete", new_child]], [["write", new_child]], [["rename", new_child, "moved"]],
+                  [["mkdir", folder], ["rename", new_child, old_child]]]
+        for f in firsts:
+            for g in follow:
+                out.append(f + [["rename", folder, new]] + g)
+    return out
+
+
 def jobs(tier):
     out = []
     cfgs = ["oo", "po"] if tier == "quick" else ["oo", "po", "ci", "pp", "op"]
@@ -78,6 +98,19 @@ def jobs(tier):
             for sc, k in plist:
                 out.append({"prop": PROP, "cfg": cfg, "order": order, "base": "B2", "scripts": A.stamp(sc),
                             "mode": {"k": k, "cap": 2500, "depth": 70, "audit": 64 if tier == "quick" else 8}})
+    other = [["create", "n2"]] if tier == "quick" else [["create", "n2"], ["write", "h"], ["delete", "a"]]
+    for cfg in (["oo", "po"] if tier == "quick" else ["oo", "po", "pp", "op"]):
+        for ch in chains():
+            for o in other:
+                for oname, order in ORDERS.items():
+                    if tier == "quick" and oname == "sync-last":
+                        continue
+                    for sc in ([ch, [o]], [[o], ch]):
+                        mode = {"k": 1 if tier == "quick" else 2, "cap": 1500, "depth": 90, "audit": 0}
+                        if order:
+                            mode["order"] = order if sc[0] is ch else [{"IL": "IR", "IR": "IL"}.get(a, a) for a in order]
+                        out.append({"prop": PROP, "cfg": cfg, "order": "asc", "base": "B2", "scripts": A.stamp(sc), "mode": mode,
+                                    "schedule": oname})
     return out
 
 
